@@ -105,8 +105,13 @@ Section Case.
   Definition nonempty {A} (l : list A) : bool := match l with [] => false | _ => true end.
 
   (* [div] = the model has already disagreed with the implementation earlier in this history: from then on only
-     the observation-only oracles are evaluated (the model state is no longer meaningful). *)
-  Fixpoint run_case (div : bool) (b : broker) (prev : option bobs) (closed_so_far : list N) (i : N) (steps : list (hop * bobs))
+     the observation-only oracles and the API-visible results are evaluated (the model's snapshot is no longer the
+     implementation's).  [adiv] = an API-visible result (success / error of a call) has disagreed: the implementation has
+     then accepted or refused a different history, so the model is not compared at all any more.  A disagreement on the
+     snapshot alone (linked objects, in-use flags) leaves the calls' results - and so the specified registry - the same:
+     Reopen and later results are still compared against the model, which is how a registry whose internals went wrong
+     without any call reporting it is caught at the call that exposes it. *)
+  Fixpoint run_case (div adiv : bool) (b : broker) (prev : option bobs) (closed_so_far : list N) (i : N) (steps : list (hop * bobs))
     : list (N * N * kind) :=
     match steps with
     | [] => []
@@ -121,24 +126,26 @@ Section Case.
         match h with
         | HOp op0 =>
             let '(b', r, closed) := step cf b op0 in
-            let mm := if div then [] else
+            let amm := if adiv then [] else
                  (if Bool.eqb (model_ok op0 r) (ob_ok o) then [] else [KOk]) ++
-                 (if Bool.eqb (model_err r) (ob_err o) then [] else [KErr]) ++
+                 (if Bool.eqb (model_err r) (ob_err o) then [] else [KErr]) in
+            let mm := amm ++ (if div then [] else
                  (if eqNl (sortN (observable_closes closed)) (ob_closed o) then [] else [KClosed]) ++
-                 check_state b' o in
+                 check_state b' o) in
             tag (mm ++ oracle)
-            ++ run_case (div || nonempty mm) b' (Some o) (ob_closed o ++ closed_so_far) (N.succ i) rest
+            ++ run_case (div || nonempty mm) (adiv || nonempty amm) b' (Some o) (ob_closed o ++ closed_so_far) (N.succ i) rest
         | HReopen f =>
-            let mm := if div then [] else (if reopen_accepts b f o then [] else [KReopen]) ++ check_state b o in
+            let amm := if adiv then [] else (if reopen_accepts b f o then [] else [KReopen]) in
+            let mm := amm ++ (if div then [] else check_state b o) in
             tag (mm ++ oracle)
-            ++ run_case (div || nonempty mm) b (Some o) closed_so_far (N.succ i) rest
+            ++ run_case (div || nonempty mm) adiv b (Some o) closed_so_far (N.succ i) rest
         end
     end.
 End Case.
 
 Record bcase := { c_id : N; c_close_fails : list N; c_non_closers : list N; c_steps : list (hop * bobs) }.
 Definition mismatches (cs : list bcase) : list (N * (N * N * kind)) :=
-  flat_map (fun c => map (fun m => (c_id c, m)) (run_case (c_close_fails c) (c_non_closers c) false b0 None [] 0%N (c_steps c))) cs.
+  flat_map (fun c => map (fun m => (c_id c, m)) (run_case (c_close_fails c) (c_non_closers c) false false b0 None [] 0%N (c_steps c))) cs.
 
 (* coverage vector of a case: which result classes the model went through (for the evidence) *)
 Fixpoint classes (cfl : list N) (b : broker) (steps : list (hop * bobs)) : list rclass :=
